@@ -480,7 +480,7 @@ pub fn run(ctx: &mut Ctx) {
     }
     ctx.more_samples(3);
     let n = ctx.nshards as u32;
-    drive(ctx, "random", ctx.tier.pick(40_000, 800_000) / n, 8, 80, |ctx, bytes| {
+    drive(ctx, "random", ctx.tier.pick(160_000, 1_600_000) / n, 8, 80, |ctx, bytes| {
         let mut c = Choices::new(bytes);
         let e = rand_tree(&mut c, 4);
         check_tree(ctx, "random", "random", &e)
